@@ -161,7 +161,10 @@ def truth(v):
     if isinstance(v, SymSeq):
         return v.length.t > 0 if isinstance(v.length, SV) else v.length > 0
     if isinstance(v, SymMap):
-        raise Unsupported("truth of a symbolic map")
+        if any(w is not SymMap.DELETED for k, w in v.overlay):
+            return True
+        # an arbitrary map is empty or not; membership facts about it are related to this flag where they are derived (Interp.map_dom)
+        return z3.Bool("nonempty!%s!%d" % (v.label, v.uid))
     return bool(v)
 
 
@@ -307,12 +310,16 @@ class SymMap:
     """
     DELETED = object()
 
+    _n = 0
+
     def __init__(self, dom, get, label="map", keykind="name"):
         self.dom = dom
         self.get = get
         self.overlay = []
         self.label = label
         self.keykind = keykind
+        SymMap._n += 1
+        self.uid = SymMap._n
 
     def __repr__(self):
         return "<SymMap %s>" % self.label
@@ -320,6 +327,20 @@ class SymMap:
 
 def key_eq(a, b):
     """z3 Bool / python bool for equality of two keys."""
+    if isinstance(a, tuple) and isinstance(b, tuple):
+        if len(a) != len(b):
+            return False
+        acc = []
+        for x, y in zip(a, b):
+            e = key_eq(x, y)
+            if isinstance(e, bool):
+                if not e:
+                    return False
+            else:
+                acc.append(e)
+        if not acc:
+            return True
+        return z3.And(*acc) if len(acc) > 1 else acc[0]
     if isinstance(a, SV) or isinstance(b, SV):
         if isinstance(a, SV) and isinstance(b, SV):
             if a.k == "name" and b.k == "name":
